@@ -805,7 +805,7 @@ func newDynRandom(c *core.Ctx, kind string, total bool) *Dyn {
 		c.Begin(kind, "New", d.Elem, d.Config)
 		return d
 	}
-	if !isKV(kind) && c.Prop == "C11" && r.Chance(1, 12) {
+	if !isKV(kind) && c.IsProp("C11") && r.Chance(1, 12) {
 		// elements whose JSON hooks sit on the pointer receiver (see PJ); value
 		// containers only: Go's own json.Marshal of a map skips such hooks
 		d = NewDyn(kind, PJDom(r.Range(4, 12)), IntDom(4), cfg)
@@ -813,7 +813,7 @@ func newDynRandom(c *core.Ctx, kind string, total bool) *Dyn {
 		c.Begin(kind, "New", d.Elem, d.Config)
 		return d
 	}
-	if isKV(kind) && c.Prop == "C12" && r.Chance(1, 12) {
+	if isKV(kind) && c.IsProp("C12") && r.Chance(1, 12) {
 		// keys that unmarshal themselves from text (see TK). Only where the
 		// statement is about what an input denotes: C11 is stated for string and
 		// integer keys, and the tree maps' ToJSON does write such keys by kind.
